@@ -142,6 +142,21 @@ def body(chk):
                      'printf("\\nR rc %%d\\n", masa_init_param<Scalar>()); printf("R restored %%d\\n", masa_get_param<Scalar>("%s")==d0);' % pick] if pick else []
             chk.paths_clean('%s:init_param-restores-defaults-returns-0' % tag, bad, key='%s:init_param' % name, family='init_param',
                             replay=store_replay(chk, scalar, name, lines, ['R rc 0', 'R restored 1'], 'masa_init_param') if pick else None)
+            # ---- init_param also restores every VECTOR parameter (length and contents) from an arbitrary vector state
+            if v.sol['vecs']:
+                import c10
+                stv = v.st.clone()
+                c10.symbolize_vecs(stv, v.sol, n=3)
+                want = c10.vec_snapshot(v.st_concrete, v.sol)
+                paths = ex.explore(stv, lambda ex: ex.call(finit, []), 8)
+                bad = [pc_term(p['pc']) for p in paths if p['error'] is not None or p['terminal'] is not None or p['ret'] != 0 or c10.vec_snapshot(p['st'], v.sol) != want]
+                vn0 = sorted(v.sol['vecs'])
+                lines = ['std::vector<Scalar> ref, cur, t_(3,(Scalar)0.625); bool ok=true;']
+                for vn in vn0:
+                    lines.append('masa_get_vec<Scalar>("%s",ref); masa_set_vec<Scalar>("%s",t_); masa_init_param<Scalar>(); masa_get_vec<Scalar>("%s",cur); ok = ok && cur.size()==ref.size(); for(size_t i=0;ok && i<ref.size();i++) ok = cur[i]==ref[i];' % (vn, vn, vn))
+                lines.append('printf("\\nR vectors_restored %d\\n",(int)ok);')
+                chk.paths_clean('%s:init_param-restores-vector-parameters' % tag, bad, key='%s:init_param-vectors' % name, family='init_param',
+                                replay=store_replay(chk, scalar, name, lines, ['R vectors_restored 1'], 'masa_init_param after masa_set_vec'))
             # ---- purge: every scalar parameter becomes the marker
             fpurge = S.api_fn(w, 'masa_purge_default_param', scalar, '')
             paths = ex.explore(v.st, lambda ex: ex.call(fpurge, []), 8)
